@@ -79,7 +79,7 @@ def run(case, max_steps=30000):
     behave = case.get('behave') or {}
     state = {'running': 0, 'mbs_log': [(0.0, cfg['mbs'])]}
     # line tracing turns a busy loop in the code under test into a step-bound livelock verdict
-    with World(max_steps=max_steps, trace=('aiuti/asyncio.py',)) as w:
+    with World(max_steps=max_steps, trace=('aiuti/asyncio.py',), tie_seed=case.get('tie')) as w:
         sim = w.sim
 
         async def bf(items, which=0):
